@@ -14,6 +14,7 @@ import (
 	"fmt"
 	"io"
 	golog "log"
+	"math"
 	"net"
 	"net/http"
 	"os"
@@ -150,6 +151,10 @@ func vwRequest(f map[string]string, wire []byte) (raw []byte, halfClose bool) {
 	case "lying_longer":
 		body = wire
 		cl = len(wire) + 10
+		halfClose = true
+	case "lying_absurd":
+		body = wire
+		cl = math.MaxInt64
 		halfClose = true
 	case "lying_shorter":
 		body = wire
